@@ -140,13 +140,13 @@ def make_overlay(pid, part, bdir):
     json.dump({"Replace": rep}, open(ov, "w"), indent=1)
     return ov
 
-def build_part(pid, part):
+def build_part(pid, part, race=False):
     bdir = os.path.join(BUILD, pid, part["name"])
     os.makedirs(bdir, exist_ok=True)
     ov = make_overlay(pid, part, bdir)
-    binp = os.path.join(bdir, "harness.test")
+    binp = os.path.join(bdir, "harness.race.test" if race else "harness.test")
     cmd = [go_bin(), "test", "-c", "-tags", "verif", "-overlay", ov, "-vet=off", "-o", binp, "./" + part["pkg"]]
-    if part.get("race"):
+    if race:
         cmd.insert(2, "-race")
     t0 = time.time()
     r = subprocess.run(cmd, cwd=REPO, env=go_run_env(), capture_output=True, text=True)
@@ -197,6 +197,58 @@ def run_part(pid, part, tier, binp, bdir, replay=None, seed=1):
         if rc != 0:
             failed.append((i, rc, os.path.join(bdir, "log.%d.txt" % i)))
     return records, failed
+
+def race_pass(pid, part, tier, seconds):
+    """Free-running -race pass over the same scenario bodies (validates the scheduler's data-race-freedom assumption).
+    Returns (records, races) where races = {key: description} for races that involve code under test."""
+    binp, bdir = build_part(pid, part, race=True)
+    out = os.path.join(bdir, "out.race.jsonl")
+    if os.path.exists(out):
+        os.remove(out)
+    env = go_run_env()
+    env.update({"VERIF_OUT": out, "VERIF_TIER": tier, "VERIF_FREE": "1", "VERIF_DEADLINE_S": str(seconds), "GOMAXPROCS": "8",
+                "GORACE": "halt_on_error=0", "VERIF_DIR": VERIF, "VERIF_REPO": REPO})
+    logp = os.path.join(bdir, "log.race.txt")
+    with open(logp, "w") as logf:
+        cmd = [binp, "-test.run", "^(%s)$" % part["run"], "-test.timeout", "%ds" % (seconds * 3 + 120)]
+        rc = -1
+        try:
+            rc = subprocess.run(cmd, cwd=os.path.join(REPO, part["pkg"]), env=env, stdout=logf, stderr=subprocess.STDOUT, timeout=seconds * 3 + 180).returncode
+        except subprocess.TimeoutExpired:
+            pass
+    records = []
+    if os.path.exists(out):
+        for line in open(out):
+            if line.strip():
+                records.append(json.loads(line))
+    races = {}
+    txt = open(logp, errors="replace").read()
+    if not records:
+        log("race pass of %s/%s produced no record (exit %s); tail of %s:\n%s" % (pid, part["name"], rc, logp, txt[-1500:]))
+        records.append({"property": pid, "part": "race-pass", "executions": 0, "exhaustive": False,
+                        "caps_hit": ["free-running -race pass did not complete (exit %s): assumption not validated in this run" % rc]})
+    for block in txt.split("WARNING: DATA RACE")[1:]:
+        block = block.split("==================")[0]
+        tops = []
+        lines = block.splitlines()
+        for i, l in enumerate(lines):
+            if re.match(r"^(Write|Read|Previous write|Previous read) at ", l.strip()) or re.match(r"^(Write|Read|Previous write|Previous read) at ", l):
+                # first frame: function line, then file line
+                fn, fl = "", ""
+                for j in range(i + 1, min(i + 4, len(lines))):
+                    if lines[j].startswith("  ") and not lines[j].startswith("      ") and not fn:
+                        fn = lines[j].strip()
+                    elif lines[j].startswith("      ") and not fl:
+                        fl = lines[j].strip().split(" ")[0]
+                        break
+                tops.append((fn, fl))
+        def under_test(fl):
+            return ("/instr/" in fl or fl.startswith(REPO + "/")) and "zz_verif" not in fl and "/x/verif/" not in fl
+        if len(tops) >= 2 and (under_test(tops[0][1]) or under_test(tops[1][1])):
+            # skip pairs where the non-library side is the harness reading state after the run
+            key = "data-race/" + " <-> ".join(sorted(re.sub(r"\(.*$", "", t[0]).split("/")[-1] for t in tops[:2]))
+            races.setdefault(key, block.strip()[:1500])
+    return records, races
 
 def load_known():
     p = os.path.join(VERIF, "known_findings.json")
@@ -287,6 +339,20 @@ def run_check(pid, tier, replay=None, keep=False):
         if part.get("_instr_stats"):
             for r in recs:
                 r.setdefault("notes", []).append("instrumented: %s" % json.dumps(part["_instr_stats"]))
+        secs = part.get("race_pass_" + tier, 0)
+        if secs and not replay:
+            rrecs, races = race_pass(pid, part, tier, secs)
+            if races:
+                # a race must show up in two independent passes before it is believed
+                _, races2 = race_pass(pid, part, tier, secs)
+                races = {k: v for k, v in races.items() if k in races2}
+            for r in rrecs:
+                r["violations"] = [{"key": k, "desc": "the race detector reports a data race in the code under test while the scenario bodies run freely (two independent passes):\n" + v,
+                                    "replay": {"race_pass": True, "part": part["name"]}} for k, v in races.items()]
+                r["n_violations"] = len(races)
+                r.setdefault("notes", []).append("free-running -race pass: %d executions, %d distinct races in code under test" % (r.get("executions", 0), len(races)))
+                r["exhaustive"] = True
+            records += rrecs
     wall = time.time() - t0
     ev, viols = merge(pid, spec, tier, records, wall, seed, [x[:2000] for x in infra])
     known = load_known()
@@ -359,6 +425,8 @@ def main():
             for part in spec["parts"]:
                 try:
                     build_part(pid, part)
+                    if part.get("race_pass_quick"):
+                        build_part(pid, part, race=True)
                 except SystemExit:
                     log("setup: pre-build of %s/%s failed (the check itself will report it)" % (pid, part["name"]))
         return 0
